@@ -20,18 +20,57 @@ func specNib(e *mulTable64Entry, w T) T {
 
 //@ frozen mulTable64
 
-// Rows of the nibble tables built by platformInit (closed facts, evaluated for every constant).
-//@ lemma tables64Row
+// Rows of the nibble tables built by platformInit (closed facts, evaluated for every
+// constant and every nibble value: 65536 x 16 x 8 entries).
+//@ lemma tables64Nib
 //@   props C09 C11 C07 C12
 //@   kind exhaust
+//@   forall c T, j T
+//@   range j 0 16
+//@   requires j < 16
+//@   ensures T(mulTable64[c].s0Low[j]) | T(mulTable64[c].s0High[j])<<8 == specGfmul(c, j) && T(mulTable64[c].s4Low[j]) | T(mulTable64[c].s4High[j])<<8 == specGfmul(c, j<<4) && T(mulTable64[c].s8Low[j]) | T(mulTable64[c].s8High[j])<<8 == specGfmul(c, j<<8) && T(mulTable64[c].s12Low[j]) | T(mulTable64[c].s12High[j])<<8 == specGfmul(c, j<<12)
+
+//@ lemma nibSplit
+//@   props C09 C11 C07 C12
+//@   opaque
+//@   forall c T, w T
+//@   ensures specGfmul(c, w) == specGfmul(c, w&0xf) ^ specGfmul(c, ((w>>4)&0xf)<<4) ^ specGfmul(c, ((w>>8)&0xf)<<8) ^ specGfmul(c, (w>>12)<<12)
+//@   use mulAddR(c, w&0xf, w&0xfff0)
+//@   use mulAddR(c, ((w>>4)&0xf)<<4, w&0xff00)
+//@   use mulAddR(c, ((w>>8)&0xf)<<8, (w>>12)<<12)
+
+//@ lemma tables64Word
+//@   props C09 C11 C07 C12
+//@   opaque
+//@   forall c T, w T
+//@   ensures specNib(&mulTable64[c], w) == specGfmul(c, w)
+//@   use tables64Nib(c, w&0xf)
+//@   use tables64Nib(c, (w>>4)&0xf)
+//@   use tables64Nib(c, (w>>8)&0xf)
+//@   use tables64Nib(c, w>>12)
+//@   use nibSplit(c, w)
+
+//@ lemma tables64Row
+//@   props C09 C11 C07 C12
+//@   opaque
 //@   forall c T
 //@   ensures forallv(w, T, specNib(&mulTable64[c], w) == specGfmul(c, w))
+//@   use tables64Word
+
+//@ lemma tablesLookupWord
+//@   props C09 C11 C07 C12
+//@   opaque
+//@   forall c T, w T
+//@   ensures specLookup(&mulTable[c], w) == specGfmul(c, w)
+//@   use tablesMulRowW(c)
+//@   use mulSplitWord(c, w)
 
 //@ lemma tablesLookupRow
 //@   props C09 C11 C07 C12
-//@   kind exhaust
+//@   opaque
 //@   forall c T
 //@   ensures forallv(w, T, specLookup(&mulTable[c], w) == specGfmul(c, w))
+//@   use tablesLookupWord
 
 // ---- assembly kernels: contracts assumed here, checked by the assembly front end -------
 
